@@ -83,10 +83,10 @@ fn finish<F: FnOnce() -> Got>(f: F) -> Got {
 }
 
 /// `libtw2_gamenet_common::traits::MessageExt::{decode, encode}` of a protocol's System / Game type
-fn generic_msg<'a, M: traits::Message<'a> + std::fmt::Debug>(data: &'a [u8], sec: &str) -> Got {
+fn generic_msg<'a, M: traits::Message<'a> + std::fmt::Debug>(data: &'a [u8], sec: &str, demo: bool) -> Got {
     finish(|| {
         let mut warn: Vec<Warning> = Vec::new();
-        let mut p = Unpacker::new(data);
+        let mut p = unp(data, demo);
         let mut got = Got { size: -1, idok: true, enc: "none".into(), ..Got::default() };
         match <M as traits::MessageExt>::decode(&mut warn, &mut p) {
             Ok(m) => {
@@ -169,10 +169,10 @@ macro_rules! proto {
             use super::*;
             use $c as g;
 
-            pub fn msg(data: &[u8]) -> Got {
+            pub fn msg(data: &[u8], demo: bool) -> Got {
                 finish(|| {
                     let mut warn: Vec<Warning> = Vec::new();
-                    let mut p = Unpacker::new(data);
+                    let mut p = unp(data, demo);
                     let mut got = Got { size: -1, idok: true, enc: "none".into(), ..Got::default() };
                     match g::msg::decode(&mut warn, &mut p) {
                         Ok(m) => {
@@ -221,21 +221,21 @@ macro_rules! proto {
                 })
             }
 
-            pub fn tsystem(data: &[u8]) -> Got {
-                generic_msg::<<g::Protocol as traits::Protocol<'_>>::System>(data, "system")
+            pub fn tsystem(data: &[u8], demo: bool) -> Got {
+                generic_msg::<<g::Protocol as traits::Protocol<'_>>::System>(data, "system", demo)
             }
-            pub fn tgame(data: &[u8]) -> Got {
-                generic_msg::<<g::Protocol as traits::Protocol<'_>>::Game>(data, "game")
+            pub fn tgame(data: &[u8], demo: bool) -> Got {
+                generic_msg::<<g::Protocol as traits::Protocol<'_>>::Game>(data, "game", demo)
             }
             pub fn tobj(ord: i64, uuid: &[u8], words: &[i32]) -> Got {
                 generic_obj::<g::Protocol>(ord, uuid, words)
             }
 
             /// inherent `System::decode` + `System::encode`
-            pub fn system(data: &[u8]) -> Got {
+            pub fn system(data: &[u8], demo: bool) -> Got {
                 finish(|| {
                     let mut warn: Vec<Warning> = Vec::new();
-                    let mut p = Unpacker::new(data);
+                    let mut p = unp(data, demo);
                     let mut got = Got { size: -1, idok: true, enc: "none".into(), ..Got::default() };
                     match g::msg::System::decode(&mut warn, &mut p) {
                         Ok(m) => {
@@ -269,10 +269,10 @@ macro_rules! proto {
             }
 
             /// inherent `Game::decode` + `Game::encode`
-            pub fn game(data: &[u8]) -> Got {
+            pub fn game(data: &[u8], demo: bool) -> Got {
                 finish(|| {
                     let mut warn: Vec<Warning> = Vec::new();
-                    let mut p = Unpacker::new(data);
+                    let mut p = unp(data, demo);
                     let mut got = Got { size: -1, idok: true, enc: "none".into(), ..Got::default() };
                     match g::msg::Game::decode(&mut warn, &mut p) {
                         Ok(m) => {
@@ -305,10 +305,10 @@ macro_rules! proto {
                 })
             }
 
-            pub fn connless(data: &[u8]) -> Got {
+            pub fn connless(data: &[u8], demo: bool) -> Got {
                 finish(|| {
                     let mut warn: Vec<Warning> = Vec::new();
-                    let mut p = Unpacker::new(data);
+                    let mut p = unp(data, demo);
                     let mut got = Got { size: -1, idok: true, enc: "none".into(), ..Got::default() };
                     match g::msg::Connless::decode(&mut warn, &mut p) {
                         Ok(m) => {
@@ -389,7 +389,29 @@ proto!(p06, libtw2_gamenet_teeworlds_0_6);
 proto!(p07, libtw2_gamenet_teeworlds_0_7);
 proto!(pdd, libtw2_gamenet_ddnet);
 
-fn run(proto: &str, entry: &str, ord: i64, uuid: &[u8], data: &[i64]) -> Got {
+fn unp(data: &[u8], demo: bool) -> Unpacker<'_> {
+    if demo {
+        Unpacker::new_from_demo(data)
+    } else {
+        Unpacker::new(data)
+    }
+}
+
+fn run(proto: &str, entry0: &str, ord: i64, uuid: &[u8], data: &[i64]) -> Got {
+    // entry points behind Unpacker::new_from_demo: "d" + name
+    let demo = entry0.starts_with('d');
+    let entry = if demo { &entry0[1..] } else { entry0 };
+    if demo && data.len() % 4 != 0 {
+        // the documented precondition of the constructor
+        let bytes: Vec<u8> = data.iter().map(|&x| x as u8).collect();
+        if let Err(msg) = catch(|| {
+            let _ = Unpacker::new_from_demo(&bytes);
+        }) {
+            if msg.contains("multiple of four") {
+                return Got { r: "precond".into(), enc: "none".into(), size: -1, idok: true, panic: msg, ..Got::default() };
+            }
+        }
+    }
     match entry {
         "tobj" => {
             let words: Vec<i32> = data.iter().map(|&x| x as i32).collect();
@@ -403,14 +425,14 @@ fn run(proto: &str, entry: &str, ord: i64, uuid: &[u8], data: &[i64]) -> Got {
         "tsystem" | "tgame" => {
             let bytes: Vec<u8> = data.iter().map(|&x| x as u8).collect();
             match (proto, entry) {
-                ("0.5", "tsystem") => p05::tsystem(&bytes),
-                ("0.6", "tsystem") => p06::tsystem(&bytes),
-                ("0.7", "tsystem") => p07::tsystem(&bytes),
-                (_, "tsystem") => pdd::tsystem(&bytes),
-                ("0.5", _) => p05::tgame(&bytes),
-                ("0.6", _) => p06::tgame(&bytes),
-                ("0.7", _) => p07::tgame(&bytes),
-                _ => pdd::tgame(&bytes),
+                ("0.5", "tsystem") => p05::tsystem(&bytes, demo),
+                ("0.6", "tsystem") => p06::tsystem(&bytes, demo),
+                ("0.7", "tsystem") => p07::tsystem(&bytes, demo),
+                (_, "tsystem") => pdd::tsystem(&bytes, demo),
+                ("0.5", _) => p05::tgame(&bytes, demo),
+                ("0.6", _) => p06::tgame(&bytes, demo),
+                ("0.7", _) => p07::tgame(&bytes, demo),
+                _ => pdd::tgame(&bytes, demo),
             }
         }
         "obj" => {
@@ -425,40 +447,235 @@ fn run(proto: &str, entry: &str, ord: i64, uuid: &[u8], data: &[i64]) -> Got {
         "connless" => {
             let bytes: Vec<u8> = data.iter().map(|&x| x as u8).collect();
             match proto {
-                "0.5" => p05::connless(&bytes),
-                "0.6" => p06::connless(&bytes),
-                "0.7" => p07::connless(&bytes),
-                _ => pdd::connless(&bytes),
+                "0.5" => p05::connless(&bytes, demo),
+                "0.6" => p06::connless(&bytes, demo),
+                "0.7" => p07::connless(&bytes, demo),
+                _ => pdd::connless(&bytes, demo),
             }
         }
         "system" => {
             let bytes: Vec<u8> = data.iter().map(|&x| x as u8).collect();
             match proto {
-                "0.5" => p05::system(&bytes),
-                "0.6" => p06::system(&bytes),
-                "0.7" => p07::system(&bytes),
-                _ => pdd::system(&bytes),
+                "0.5" => p05::system(&bytes, demo),
+                "0.6" => p06::system(&bytes, demo),
+                "0.7" => p07::system(&bytes, demo),
+                _ => pdd::system(&bytes, demo),
             }
         }
         "game" => {
             let bytes: Vec<u8> = data.iter().map(|&x| x as u8).collect();
             match proto {
-                "0.5" => p05::game(&bytes),
-                "0.6" => p06::game(&bytes),
-                "0.7" => p07::game(&bytes),
-                _ => pdd::game(&bytes),
+                "0.5" => p05::game(&bytes, demo),
+                "0.6" => p06::game(&bytes, demo),
+                "0.7" => p07::game(&bytes, demo),
+                _ => pdd::game(&bytes, demo),
             }
         }
         _ => {
             let bytes: Vec<u8> = data.iter().map(|&x| x as u8).collect();
             match proto {
-                "0.5" => p05::msg(&bytes),
-                "0.6" => p06::msg(&bytes),
-                "0.7" => p07::msg(&bytes),
-                _ => pdd::msg(&bytes),
+                "0.5" => p05::msg(&bytes, demo),
+                "0.6" => p06::msg(&bytes, demo),
+                "0.7" => p07::msg(&bytes, demo),
+                _ => pdd::msg(&bytes, demo),
             }
         }
     }
+}
+
+// ---------------------------------------------------------------------------------------------
+// `encode` of values built through the public struct fields (constructors generated by build.rs)
+
+pub enum Built {
+    Ok(Vec<i64>),
+    Cap,
+    Panic(String),
+}
+
+/// one field value from its JSON form; the target type is inferred from the struct definition
+pub trait Cv: Sized {
+    fn cv(v: &Value) -> Option<Self>;
+}
+/// a snapshot object from the flat list of its members' values (parent's members first)
+pub trait Cvs: Sized {
+    const N: usize;
+    fn cvs(v: &[Value]) -> Option<Self>;
+}
+fn leak_bytes(v: &Value) -> Option<&'static [u8]> {
+    let a = v.as_array()?;
+    let mut b = Vec::with_capacity(a.len());
+    for x in a {
+        let n = x.as_i64()?;
+        if !(0..=255).contains(&n) {
+            return None;
+        }
+        b.push(n as u8);
+    }
+    Some(Box::leak(b.into_boxed_slice()))
+}
+impl Cv for i32 {
+    fn cv(v: &Value) -> Option<i32> {
+        match v {
+            // the i32 behind an int32_string member: what the decimal string denotes
+            Value::Array(_) => std::str::from_utf8(leak_bytes(v)?).ok()?.parse::<i32>().ok(),
+            _ => {
+                let n = v.as_i64()?;
+                if n < i32::MIN as i64 || n > i32::MAX as i64 {
+                    None
+                } else {
+                    Some(n as i32)
+                }
+            }
+        }
+    }
+}
+impl Cv for bool {
+    fn cv(v: &Value) -> Option<bool> {
+        match v.as_i64()? {
+            0 => Some(false),
+            1 => Some(true),
+            _ => None,
+        }
+    }
+}
+impl Cv for u8 {
+    fn cv(v: &Value) -> Option<u8> {
+        let n = v.as_i64()?;
+        if (0..=255).contains(&n) { Some(n as u8) } else { None }
+    }
+}
+impl Cv for u16 {
+    fn cv(v: &Value) -> Option<u16> {
+        let n = v.as_i64()?;
+        if (0..=65535).contains(&n) { Some(n as u16) } else { None }
+    }
+}
+impl Cv for libtw2_gamenet_common::msg::TuneParam {
+    fn cv(v: &Value) -> Option<Self> {
+        Some(libtw2_gamenet_common::msg::TuneParam(i32::cv(v)?))
+    }
+}
+impl Cv for libtw2_gamenet_common::snap_obj::Tick {
+    fn cv(v: &Value) -> Option<Self> {
+        Some(libtw2_gamenet_common::snap_obj::Tick(i32::cv(v)?))
+    }
+}
+impl Cv for &'static [u8] {
+    fn cv(v: &Value) -> Option<Self> {
+        leak_bytes(v)
+    }
+}
+impl Cv for libtw2_common::digest::Sha256 {
+    fn cv(v: &Value) -> Option<Self> {
+        libtw2_common::digest::Sha256::from_slice(leak_bytes(v)?).ok()
+    }
+}
+impl Cv for Uuid {
+    fn cv(v: &Value) -> Option<Self> {
+        Uuid::from_slice(leak_bytes(v)?).ok()
+    }
+}
+impl Cv for libtw2_gamenet_common::msg::ClientsData<'static> {
+    fn cv(v: &Value) -> Option<Self> {
+        Some(libtw2_gamenet_common::msg::ClientsData::from_bytes(leak_bytes(v)?))
+    }
+}
+impl Cv for &'static [libtw2_gamenet_common::msg::AddrPacked] {
+    fn cv(v: &Value) -> Option<Self> {
+        use libtw2_gamenet_common::msg::AddrPackedSliceExt;
+        let mut w: Vec<ExcessData> = Vec::new();
+        Some(<[libtw2_gamenet_common::msg::AddrPacked] as AddrPackedSliceExt>::from_bytes(&mut w, leak_bytes(v)?))
+    }
+}
+impl<T: Cv> Cv for Option<T> {
+    fn cv(v: &Value) -> Option<Self> {
+        let a = v.as_array()?;
+        match a.len() {
+            0 => Some(None),
+            1 => Some(Some(T::cv(&a[0])?)),
+            _ => None,
+        }
+    }
+}
+impl<T: Cv, const N: usize> Cv for [T; N] {
+    fn cv(v: &Value) -> Option<Self> {
+        let a = v.as_array()?;
+        if a.len() != N {
+            return None;
+        }
+        let mut r = Vec::with_capacity(N);
+        for x in a {
+            r.push(T::cv(x)?);
+        }
+        <[T; N]>::try_from(r).ok()
+    }
+}
+fn enc_bytes<F>(f: F) -> Built
+where
+    F: for<'d, 's> FnOnce(libtw2_packer::Packer<'d, 's>) -> Result<&'d [u8], libtw2_buffer::CapacityError>,
+{
+    match catch(|| {
+        let mut buf: Vec<u8> = Vec::with_capacity(CAP);
+        with_packer(&mut buf, |p| f(p).map(|b| b.to_vec()))
+    }) {
+        Ok(Ok(b)) => Built::Ok(b.iter().map(|&x| x as i64).collect()),
+        Ok(Err(_)) => Built::Cap,
+        Err(msg) => Built::Panic(format!("{} at {}", msg, vh_common::last_panic_location())),
+    }
+}
+fn enc_words<F: FnOnce() -> Vec<i32>>(f: F) -> Built {
+    match catch(f) {
+        Ok(w) => Built::Ok(w.iter().map(|&x| x as i64).collect()),
+        Err(msg) => Built::Panic(format!("{} at {}", msg, vh_common::last_panic_location())),
+    }
+}
+include!(concat!(env!("OUT_DIR"), "/built.rs"));
+
+/// builds message / object `mi` of section `sec` from `vals` and encodes it: (r, bytes, panic message)
+/// r: ok | panic | cap | unrep (the Rust types of the fields cannot hold the values)
+fn build(proto: &str, sec: &str, mi: usize, vals: &Value) -> (String, Vec<i64>, String) {
+    let empty = Vec::new();
+    let v = vals.as_array().unwrap_or(&empty);
+    vh_common::set_case(&json!({"proto": proto, "build": sec, "mi": mi, "vals": vals}).to_string());
+    let b = guarded(10_000, || match proto {
+        "0.5" => bp05::build(sec, mi, v),
+        "0.6" => bp06::build(sec, mi, v),
+        "0.7" => bp07::build(sec, mi, v),
+        _ => bpdd::build(sec, mi, v),
+    });
+    match b {
+        Ok(None) => ("unrep".into(), vec![], String::new()),
+        Ok(Some(Built::Ok(b))) => ("ok".into(), b, String::new()),
+        Ok(Some(Built::Cap)) => ("cap".into(), vec![], String::new()),
+        Ok(Some(Built::Panic(m))) => ("panic".into(), vec![], m),
+        Err(m) => ("panic".into(), vec![], format!("constructor: {}", m)),
+    }
+}
+
+/// Compares `encode` of the built value with the spec's expectation (`bexp`). "build-canon" breaks the
+/// property (the value is the one the canonical bytes decode to); the others are detail.
+fn compare_build(vec: &Value, r: &str, bytes: &[i64], msg: &str) -> Vec<(String, String)> {
+    let be = &vec["bexp"];
+    let rep = be["rep"].as_bool().unwrap_or(false);
+    let ok = be["ok"].as_bool().unwrap_or(false);
+    let ebytes = ints(&be["bytes"]);
+    let mut out = Vec::new();
+    let canon = vec["exp"]["class"] == "canon" && ok && ints(&vec["data"]) == ebytes;
+    if !rep {
+        if r != "unrep" {
+            out.push(("build-detail".into(), format!("a value the description's types cannot hold was built and encode gave {} {:?}", r, bytes)));
+        }
+    } else if ok {
+        if r != "ok" || bytes != &ebytes[..] {
+            let kind = if canon { "build-canon" } else { "build-detail" };
+            out.push((kind.into(), format!("encode of a value built through the struct fields gave {} {:?} {} instead of {:?}", r, bytes, msg, ebytes)));
+        }
+    } else if r != "panic" {
+        out.push(("build-detail".into(), format!("encode of a value that violates an assertion of encode gave {} {:?} instead of panicking", r, bytes)));
+    } else if !(msg.contains("assertion failed") || msg.contains("ControlCharacters")) {
+        out.push(("build-detail".into(), format!("encode panicked with an undocumented message: {}", msg)));
+    }
+    out
 }
 
 fn got_json(g: &Got) -> Value {
@@ -496,7 +713,23 @@ fn compare(vec: &Value, got: &Got) -> Vec<(String, String)> {
         return out;
     }
     let exp_enc = exp["enc"].as_bool().unwrap_or(false);
+    if class == "none" {
+        return out;
+    }
+    if class == "precond" || got.r == "precond" {
+        if class != got.r {
+            out.push(("detail".into(), format!("outcome {} instead of {} (precondition of Unpacker::new_from_demo)", got.r, class)));
+        }
+        return out;
+    }
     match class {
+        "soft" => {
+            if got.r != exp["r"].as_str().unwrap_or("") {
+                out.push(("detail".into(), format!("outcome {} {} instead of {} {}", got.r, got.e, exp["r"], exp["e"])));
+            } else if exp_enc && got.enc == "panic" {
+                out.push(("encode-panic".into(), format!("encode of a decoded value panicked: {}", got.panic)));
+            }
+        }
         "canon" => {
             if got.r != "ok" {
                 out.push(("canon".into(), format!("canonical input rejected with {}", got.e)));
@@ -534,7 +767,7 @@ fn compare(vec: &Value, got: &Got) -> Vec<(String, String)> {
         }
     }
     // object sizes: obj_size(ordinal) = described number of words
-    if vec["entry"] == "obj" && ints(&vec["uuid"]).is_empty() {
+    if vec["entry"] == "obj" && ints(&vec["uuid"]).is_empty() && vec["fam"].as_str().unwrap_or("main") != "build" {
         let size = vec["size"].as_i64().unwrap_or(-1);
         if got.size != size {
             out.push(("obj-size".into(), format!("obj_size = {} but the description has {} words", got.size, size)));
@@ -567,6 +800,7 @@ fn compare(vec: &Value, got: &Got) -> Vec<(String, String)> {
 struct Tracer {
     out: Option<std::io::BufWriter<std::fs::File>>,
     logged: u64,
+    forced: u64,
     triple: bool,
     seq: u64,
     bulk_n: u64,
@@ -584,6 +818,12 @@ impl Tracer {
             self.event1(proto, src, "tsystem", ord, uuid, data, log);
             self.event1(proto, src, "tgame", ord, uuid, data, log);
         }
+        if entry == "dmsg" && self.triple {
+            self.event1(proto, src, "dsystem", ord, uuid, data, log);
+            self.event1(proto, src, "dgame", ord, uuid, data, log);
+            self.event1(proto, src, "dtsystem", ord, uuid, data, log);
+            self.event1(proto, src, "dtgame", ord, uuid, data, log);
+        }
         if entry == "obj" && self.triple {
             self.event1(proto, src, "tobj", ord, uuid, data, log);
         }
@@ -593,7 +833,11 @@ impl Tracer {
         let ub: Vec<u8> = uuid.iter().map(|&x| x as u8).collect();
         vh_common::set_case(&json!({"proto": proto, "entry": entry, "ord": ord, "uuid": uuid, "data": data}).to_string());
         let g = run(proto, entry, ord, &ub, data);
-        let is_panic = g.r == "panic" || g.enc == "panic";
+        // a panic of decode is always recorded; a panic of encode (by design for an absent optional) up to a budget
+        let is_panic = g.r == "panic" || (g.enc == "panic" && self.forced < 400);
+        if is_panic && !log {
+            self.forced += 1;
+        }
         if log || is_panic {
             let ev = json!({"k": "ev", "n": self.seq + 1, "src": src, "entry": entry, "ord": ord, "uuid": uuid, "data": data,
                             "r": g.r, "e": g.e, "w": g.w, "enc": g.enc, "re": g.re, "sec": g.sec, "tname": g.tname, "idok": g.idok});
@@ -615,6 +859,20 @@ impl Tracer {
             }
         }
         g
+    }
+    /// `encode` of a built value, recorded for GameNetTrace (BuildOK)
+    fn benc(&mut self, proto: &str, src: &str, sec: &str, mi: usize, vals: &Value, log: bool) -> (String, Vec<i64>, String) {
+        let (r, bytes, msg) = build(proto, sec, mi, vals);
+        if log {
+            let ev = json!({"k": "benc", "n": self.seq + 1, "src": src, "sec": sec, "mi": mi, "vals": vals,
+                            "r": r, "bytes": bytes, "msg": msg});
+            if let Some(o) = self.out.as_mut() {
+                writeln!(o, "{}", ev).unwrap();
+            }
+            self.logged += 1;
+            self.seq += 1;
+        }
+        (r, bytes, msg)
     }
     fn flush_bulk(&mut self) {
         if self.bulk_n > 0 {
@@ -638,7 +896,7 @@ fn main() {
         // raw inputs {entry, ord, uuid, data} on stdin -> one trace event per line on stdout
         vh_common::quiet_panics();
         vh_common::start_watchdog();
-        let mut tr = Tracer { out: None, logged: 0, triple: false, seq: 0, bulk_n: 0, bulk_ok: 0, bulk_err: 0, bulk_panic: 0, panics: Vec::new() };
+        let mut tr = Tracer { out: None, logged: 0, forced: 0, triple: false, seq: 0, bulk_n: 0, bulk_ok: 0, bulk_err: 0, bulk_panic: 0, panics: Vec::new() };
         let stdin = std::io::stdin();
         let mut n = 0u64;
         for line in stdin.lock().lines() {
@@ -647,6 +905,16 @@ fn main() {
                 Ok(v) => v,
                 Err(_) => continue,
             };
+            if v.get("vals").is_some() {
+                // a value tuple for `encode` through the struct fields
+                let sec = v["sec"].as_str().unwrap_or("").to_string();
+                let mi = v["mi"].as_u64().unwrap_or(0) as usize;
+                let (r, bytes, msg) = build(&args[2], &sec, mi, &v["vals"]);
+                n += 1;
+                println!("{}", json!({"k": "benc", "n": n, "src": v["src"].as_str().unwrap_or("run"), "sec": sec, "mi": mi,
+                                      "vals": v["vals"], "r": r, "bytes": bytes, "msg": msg}));
+                continue;
+            }
             let entry = v["entry"].as_str().unwrap_or("msg").to_string();
             let g = tr.event(&args[2], "run", &entry, v["ord"].as_i64().unwrap_or(0), &ints(&v["uuid"]), &ints(&v["data"]), false);
             n += 1;
@@ -676,7 +944,7 @@ fn main() {
 
     let mut tr = Tracer {
         out: if trace_path.is_empty() { None } else { Some(std::io::BufWriter::new(std::fs::File::create(&trace_path).unwrap())) },
-        logged: 0, triple: true, seq: 0, bulk_n: 0, bulk_ok: 0, bulk_err: 0, bulk_panic: 0, panics: Vec::new(),
+        logged: 0, forced: 0, triple: true, seq: 0, bulk_n: 0, bulk_ok: 0, bulk_err: 0, bulk_panic: 0, panics: Vec::new(),
     };
     // how many derived inputs are logged individually (validated event by event by TLC)
     let mut trunc_log_budget: i64 = if thorough { 5_000 } else { 300 };
@@ -689,6 +957,11 @@ fn main() {
     let mut n_vec = 0u64;
     let mut by_class: std::collections::BTreeMap<String, u64> = Default::default();
     let mut n_mismatch = 0u64;
+    let mut by_fam: std::collections::BTreeMap<String, u64> = Default::default();
+    let mut n_built = 0u64;
+    let mut built_by: std::collections::BTreeMap<String, u64> = Default::default();
+    let mut benc_log_budget: i64 = if thorough { 6_000 } else { 500 };
+    let mut demo_log_budget: i64 = if thorough { 3_000 } else { 150 };
     let mut samples: Vec<Value> = Vec::new();
     let mut canon_seen: Vec<(String, i64, Vec<i64>, Vec<i64>)> = Vec::new();
     for line in stdin.lock().lines() {
@@ -731,13 +1004,95 @@ fn main() {
         let data = ints(&vec["data"]);
         let class = vec["exp"]["class"].as_str().unwrap_or("").to_string();
         *by_class.entry(class.clone()).or_insert(0) += 1;
-        let is_canonical_vec = vec["id"][2] == 0 && vec["id"][3] == 1;
+        let fam = vec["fam"].as_str().unwrap_or("main").to_string();
+        *by_fam.entry(fam.clone()).or_insert(0) += 1;
+        let is_canonical_vec = match vec.get("canonvec") {
+            Some(c) => c.as_bool().unwrap_or(false),
+            None => vec["id"][2] == 0 && vec["id"][3] == 1,
+        };
 
         // direction A
-        tr.triple = is_canonical_vec || (thorough && class != "canon");
-        let got = tr.event(&proto, "vec", &entry, ord, &uuid, &data, is_canonical_vec || class != "canon" || thorough);
-        tr.triple = true;
-        let mism = compare(&vec, &got);
+        let mut mism = Vec::new();
+        let mut got = Got { r: "none".into(), enc: "none".into(), size: -1, idok: true, ..Got::default() };
+        if fam != "build" {
+            tr.triple = is_canonical_vec || (fam == "demo" && (vec["id"][3] == 1 || thorough)) || (thorough && class != "canon");
+            got = tr.event(&proto, "vec", &entry, ord, &uuid, &data, is_canonical_vec || class != "canon" || thorough);
+            tr.triple = true;
+            mism = compare(&vec, &got);
+        }
+        // `encode` of the value tuple built through the struct fields
+        if vec["hasb"].as_bool().unwrap_or(false) {
+            let sec = vec["sec"].as_str().unwrap_or("").to_string();
+            let mi = vec["mi"].as_u64().unwrap_or(0) as usize;
+            let interesting = fam == "build" || is_canonical_vec || !vec["bexp"]["ok"].as_bool().unwrap_or(false);
+            let log = (interesting || thorough) && benc_log_budget > 0;
+            if log {
+                benc_log_budget -= 1;
+            }
+            let (r, bytes, msg) = tr.benc(&proto, "vec", &sec, mi, &vec["vals"], log);
+            n_built += 1;
+            *built_by.entry(r.clone()).or_insert(0) += 1;
+            mism.extend(compare_build(&vec, &r, &bytes, &msg));
+            if r == "ok" && fam == "build" {
+                // what `encode` wrote is an input like any other: decoded, re-encoded, judged by the trace spec
+                tr.event(&proto, "built", &entry, ord, &uuid, &bytes, true);
+            }
+            // direction B: the same tuple with one top-level integer member moved (seeded)
+            if let Some(a) = vec["vals"].as_array() {
+                let nums: Vec<usize> = (0..a.len()).filter(|&i| a[i].is_i64()).collect();
+                if !nums.is_empty() && (is_canonical_vec || fam == "pair") {
+                    for _ in 0..(if thorough { 4 } else { 1 }) {
+                        let i = nums[rng.gen_range(0..nums.len())];
+                        let old = a[i].as_i64().unwrap_or(0);
+                        let nv: i64 = match rng.gen_range(0..5) {
+                            0 => old + 1,
+                            1 => old - 1,
+                            2 => WORD_POINTS[rng.gen_range(0..WORD_POINTS.len())],
+                            3 => -WORD_POINTS[rng.gen_range(0..WORD_POINTS.len())],
+                            _ => rng.gen::<i32>() as i64,
+                        };
+                        let mut b = a.clone();
+                        b[i] = json!(nv.max(i32::MIN as i64).min(i32::MAX as i64));
+                        let log = benc_log_budget > 0;
+                        if log {
+                            benc_log_budget -= 1;
+                        }
+                        let (r2, bytes2, _) = tr.benc(&proto, "mutvals", &sec, mi, &Value::Array(b), log);
+                        if r2 == "ok" && log {
+                            tr.event(&proto, "built", &entry, ord, &uuid, &bytes2, true);
+                        }
+                    }
+                }
+            }
+        }
+        // direction B behind Unpacker::new_from_demo: the canonical bytes padded with zero / random bytes,
+        // cut at every multiple of four, and random tails
+        if is_canonical_vec && (entry == "msg" || entry == "connless") {
+            let dentry = format!("d{}", entry);
+            let p = (4 - data.len() % 4) % 4;
+            let mut cases: Vec<Vec<i64>> = Vec::new();
+            let mut d0 = data.clone();
+            d0.extend(std::iter::repeat(0).take(p));
+            cases.push(d0.clone());
+            let mut d1 = data.clone();
+            d1.extend((0..p).map(|_| rng.gen_range(0..3)));
+            cases.push(d1);
+            let mut d2 = d0.clone();
+            d2.extend((0..4).map(|_| if rng.gen() { 0 } else { rng.gen_range(0..256) }));
+            cases.push(d2);
+            let mut cut = 0;
+            while cut < d0.len() {
+                cases.push(d0[..cut].to_vec());
+                cut += 4;
+            }
+            for c in cases {
+                let log = demo_log_budget > 0;
+                if log {
+                    demo_log_budget -= 1;
+                }
+                tr.event(&proto, "demo", &dentry, ord, &uuid, &c, log);
+            }
+        }
         if !mism.is_empty() {
             n_mismatch += 1;
             for (kind, text) in mism {
@@ -748,8 +1103,8 @@ fn main() {
         }
 
         // direction B: truncations of every vector, mutations, executed now and recorded
-        let n = data.len();
-        for cut in 0..n {
+        let n = if fam == "main" || fam == "pair" { data.len() } else { 0 };
+        for cut in 0..(if fam == "main" { n } else { 0 }) {
             let log = is_canonical_vec && trunc_log_budget > 0;
             if log {
                 trunc_log_budget -= 1;
@@ -849,7 +1204,7 @@ fn main() {
     for p in tr.panics.iter() {
         writeln!(so, "{}", json!({"t": "P", "ev": p})).unwrap();
     }
-    writeln!(so, "{}", json!({"t": "S", "proto": proto, "vectors": n_vec, "by_class": by_class, "mismatching_vectors": n_mismatch,
+    writeln!(so, "{}", json!({"t": "S", "proto": proto, "vectors": n_vec, "by_class": by_class, "mismatching_vectors": n_mismatch, "by_family": by_fam, "built": n_built, "built_by_outcome": built_by,
                               "events_logged": tr.logged, "events_bulk": tr.bulk_n, "bulk_ok": tr.bulk_ok, "bulk_err": tr.bulk_err,
                               "bulk_panic": tr.bulk_panic, "samples": samples})).unwrap();
 }
